@@ -21,6 +21,13 @@ NA = [
 ]
 
 CHECKS = {
+    "C03": dict(
+        category="exploration",
+        text="Hostile-channel facet of C03: corpus files (well- and ill-formed, all encodings) and synthetic documents containing every escape, directive and scalar form are pushed through a simulated channel that injects 0-5 seeded content faults (truncation, bit flip, overwrite from an indicator alphabet, dropped / duplicated / stuttered / swapped ranges, garbage, BOM insertion and removal, odd-length UTF-16, encoding confusion, look-alike transcoding of digits/blanks/letters/indicators, lone surrogates on the text channel, nesting bursts <= 150) at positions biased into tokens with in-flight scanner state, delivered in memory and through SimReader with seeded read-size schedules, x scan / parse / compose / compose_all x both back-ends. Oracle: result or YAMLError, termination (watchdog + read budget + worker liveness), marks and ReaderError positions inside the input. The fault-free configuration runs separately (about 10% of runs). Inputs that are not reachable as a corrupted corpus document are not sampled and not claimed.",
+        design_ref="DESIGN.md section 3, C03",
+        note="Trusted: the fault applicator, SimReader, the loose mark bounds. Known finding K3 (LibYAML binding, str with a lone surrogate) is matched narrowly. Two genuine defects found by this check were repaired by fix: commits (known_findings.txt). RecursionError from nesting bursts is out of the property's scope and only counted.",
+        technique="deterministic simulation of a faulty input channel: seeded content faults + read-size schedules, class-membership and termination oracle",
+        quick_timeout=900, thorough_timeout=10800),
     "C07": dict(
         category="exploration",
         text="Seeded search over delivery forms and read-size schedules (random, targeted at multi-byte sequences / surrogate pairs / CR|LF / BOM / refill-block multiples, every two-piece split of small texts, refill-block knob 1..4096) for corpus and synthetic texts, both back-ends, four APIs and the Reader class driven directly; every delivery must observe exactly what the in-memory str delivery observes (items, line/column/index of every mark, terminal error). Reader-level defects: error signature identical for every chunking and inside an independently computed offset range. A clean batch is evidence, not proof; sampling is the right level because the space of (text, schedule) pairs is unbounded and the failure modes are boundary coincidences that the scheduler places on purpose.",
